@@ -1293,16 +1293,16 @@ impl Options {
                 None => 9,
             };
             let exp = max!(min_exp.abs(), max_exp) as usize;
-            if cfg!(feature = "power-of-two") && exp < 13 {
-                // 11 for the exponent digits in binary, 1 for the sign, 1 for the symbol
-                count += 13;
-            } else if exp < 5 {
-                // 3 for the exponent digits in decimal, 1 for the sign, 1 for the symbol
-                count += 5;
+            // 11 for the exponent digits in binary, 1 for the sign, 1 for the symbol.
+            // In decimal only 3 digits are ever written, but the integer writer
+            // needs room for all 10 digits of a `u32`, plus the sign and the symbol.
+            let exponent_size = if cfg!(feature = "power-of-two") {
+                13
             } else {
-                // More leading or trailing zeros than the exponent digits.
-                count += exp;
-            }
+                12
+            };
+            // Otherwise, more leading or trailing zeros than the exponent digits.
+            count += max!(exp, exponent_size);
         } else if cfg!(feature = "power-of-two") {
             // Min is 2^-1075.
             count += 1075;
